@@ -197,7 +197,7 @@ func run(c *lib.Ctx) error {
 	}
 	c.Set("rule", "V: one case per top-level chunk evaluated by the real Evaler and by EvalChunk; distinct by rendered source; chunks that only declare variables without output or exception are not counted as non-trivial")
 
-	nprog := c.Pick(500, 12000)
+	nprog := c.Pick(500, 8000)
 	if s := os.Getenv("VERIF_C15_N"); s != "" { // development only
 		fmt.Sscan(s, &nprog)
 	}
@@ -216,7 +216,11 @@ func run(c *lib.Ctx) error {
 			return
 		}
 		g := elvcore.NewGen(c.Seed*1_000_003+int64(i), features)
-		chunks := g.Program(1+int(g.R.Intn(4)), 4, 3, 400)
+		depth := 3
+		if c.Thorough() && i%3 == 0 {
+			depth = 4
+		}
+		chunks := g.Program(1+int(g.R.Intn(4)), 4, depth, 200*depth)
 		progs[i], errs[i] = runProgram(chunks)
 	})
 	for _, e := range errs {
